@@ -74,8 +74,8 @@ def rule_corrector_typestate(ctx, rule):
                 if acc != 'fresh':
                     ctx.report(rule, 'corrector:kick:%s' % line, 'src/integrator_whfast.c:%s reb_whfast_corrector_Z' % line,
                                'this kick is applied with accelerations that were not recomputed after the last Kepler step: the corrector and its inverse no longer cancel and the scheme loses its order')
-    anchor(n >= 8, 'kicks and force evaluations in reb_whfast_corrector_Z (found %d)' % n)
-    ctx.covered(rule, 'WHFast corrector: every kick uses accelerations computed from positions rebuilt after the last Kepler step', n, floor=8)
+    anchor(n >= 5, 'kicks and force evaluations in reb_whfast_corrector_Z (found %d)' % n)
+    ctx.covered(rule, 'WHFast corrector: every kick uses accelerations computed from positions rebuilt after the last Kepler step', n, floor=5)
 
 
 # ------------------------------------------------------------------ sibling loops of one function start alike
